@@ -1,6 +1,8 @@
 import StatimeModel.Lemmas.Frames
 import StatimeModel.Lemmas.Tlv
 import StatimeModel.Lemmas.WireRoundtrip
+import StatimeModel.Lemmas.ForwarderH
+import StatimeModel.Generated.ForwarderGlue
 /-
 C15 — Boundary clocks propagate TLVs faithfully and break path-trace loops.
 
@@ -362,5 +364,84 @@ theorem head_of_line_blocking :
       parent ≠ other ∧ q = [⟨⟨0x4000, List.replicate 16 0⟩, other⟩, ⟨⟨0x4000, []⟩, parent⟩] ∧
       (4 : Nat) < margin ∧ fwdLoop parent false false (q.length + 1) q margin [] = ([], q) :=
   ⟨⟨1, 1⟩, ⟨2, 1⟩, _, 10, by decide, rfl, by decide, by decide⟩
+
+
+/-! ### the daemon's queue between the ports (`statime-linux/src/tlvforwarder.rs`, `main.rs`)
+
+The port-level theorems above take the host's queue as a list `q` and a flag `loose`. The theorems below are
+about what the daemon really hands to `handle_announce_timer`: one `tokio::sync::broadcast` channel, one
+`TlvForwarder` per port task (`Model/Forwarder.lean`; capacity, size test, `resubscribe` and the clearing rule of
+each port task are translated from the source on every run). -/
+
+open Statime.Fwd in
+/-- the translated constants are the model's: capacity 128, `size <= max_size`, `duplicate` re-subscribes at the tail -/
+theorem forwarder_constants :
+    Generated.forwarderCapacity = some CAP ∧ Generated.forwarderFitsIsLe = some true ∧
+    Generated.forwarderDuplicateResubscribes = true := by decide
+
+/-- the size test of the forwarder is the port model's loose provider -/
+theorem forwarder_is_loose (size margin : Nat) : fwdFits true size margin = decide (size ≤ margin) := by
+  unfold fwdFits
+  by_cases h1 : size < margin
+  · simp [h1, Nat.le_of_lt h1]
+  · by_cases h2 : size = margin
+    · simp [h2]
+    · have : ¬ size ≤ margin := by omega
+      simp [h1, h2, this]
+
+open Statime.Fwd in
+/-- **never larger than asked for** -/
+theorem forwarder_hands_out_what_fits (log : List Item) (r : Rx) (m : Nat) (v : Item)
+    (h : (nextIfSmaller log r m).1 = some v) : v.size ≤ m := next_fits log r m v h
+
+open Statime.Fwd in
+/-- **forwarding reaches every port task**: the value is appended to every forwarder's pending list -/
+theorem forwarder_forward_appends (log : List Item) (r : Rx) (v : Item) (h : Wf log r) :
+    pending (log ++ [v]) r = pending log r ++ [v] := pending_forward log r v h
+
+open Statime.Fwd in
+/-- **the forwarder is a FIFO queue with "take the head if it fits"** — exactly the `q` / `loose = true` of the
+port-level theorems — for as long as the port task has not fallen 128 values behind -/
+theorem forwarder_is_a_queue (log : List Item) (r : Rx) (m : Nat) (h : Wf log r) (hn : NoLag log r) :
+    (pending log r = [] → (nextIfSmaller log r m).1 = none ∧ pending log (nextIfSmaller log r m).2 = []) ∧
+    (∀ v rest, pending log r = v :: rest →
+      (v.size ≤ m → (nextIfSmaller log r m).1 = some v ∧ pending log (nextIfSmaller log r m).2 = rest) ∧
+      (¬ v.size ≤ m → (nextIfSmaller log r m).1 = none ∧ pending log (nextIfSmaller log r m).2 = v :: rest)) :=
+  next_refines_queue log r m h hn
+
+open Statime.Fwd in
+/-- **At most once per port, in arrival order, unmodified — for every history** of `duplicate`, `forward`,
+`next_if_smaller`, `empty` and BMCA hand-backs under any clearing rule, lag and overflow included: what forwarder
+`i` has handed out is, position by position, a subsequence of what was sent on the channel. -/
+theorem forwarder_history (ops : List Op) (i : Nat) (r : Rx)
+    (hr : (run {} ops).1.rxs[i]? = some r) :
+    (delivered i ops (run {} ops).2).Sublist ((run {} ops).1.log.take r.readPos) := by
+  have := (inv_run ops {} i [] allWf_init (inv_init i)).2
+  unfold Fwd.Inv at this
+  rw [hr] at this
+  simpa using this
+
+open Statime.Fwd in
+/-- a clearing rule that leaves a master port's forwarder alone when the BMCA hands the port back -/
+theorem quiet_rule_keeps_master_queue (pol : ClearPolicy) (h : pol.clears true = false) (log : List Item) (r : Rx) :
+    afterBmca pol true log r = r := by
+  unfold afterBmca
+  rw [h]; rfl
+
+open Statime.Fwd in
+/-- **No TLV queued for a master port is thrown away by a BMCA run**: the clearing rules of both port tasks, as
+they read in today's `main.rs`, leave the forwarder of a port in the Master state untouched. (A rule that empties
+the forwarder of master ports drops every TLV that arrived since the port's last Announce — the property's "appended
+to that port's next Announce that has room for it" fails for them.) -/
+theorem port_tasks_keep_master_queue :
+    (∃ p, Generated.udpPortTaskClear = some p ∧ p.clears true = false) ∧
+    (∃ p, Generated.ethernetPortTaskClear = some p ∧ p.clears true = false) := by
+  decide
+
+open Statime.Fwd in
+/-- the premises are met: a forwarder that has peeked a value that did not fit, then a larger request -/
+example :
+    let s := (run {} [.dup 0, .forward ⟨20, 1⟩, .forward ⟨8, 2⟩, .next 1 10, .next 1 30, .next 1 30, .next 1 30]).2
+    s = [none, none, none, none, some ⟨20, 1⟩, some ⟨8, 2⟩, none] := by decide
 
 end Statime.C15
